@@ -4,6 +4,8 @@ package main
 // (one legal schedule), Wait returns the first error.
 
 import (
+	"go/types"
+
 	"golang.org/x/tools/go/ssa"
 )
 
@@ -30,5 +32,10 @@ func init() {
 			return w.errgroupErr[k]
 		}
 		return IfaceV{}
+	})
+	reg("golang.org/x/sync/errgroup.WithContext", func(w *Worker, fr *frame, a []Value, fn *ssa.Function) Value {
+		gt := fn.Signature.Results().At(0).Type().(*types.Pointer).Elem()
+		o := w.newObj(w.zero(gt), gt, "errgroup")
+		return TupleV{PtrV{Obj: o}, a[0]}
 	})
 }
